@@ -254,9 +254,7 @@ func runCase(spec *caseSpec) *caseResult {
 				continue // nothing to send
 			}
 			p := make([]byte, n)
-			for i := range p {
-				p[i] = reqByte(tok, off+int64(i))
-			}
+			fillPat(0, tok, off, p)
 			werr = conn.Data(o.ID, p, o.Fin)
 		case "wu":
 			werr = conn.WindowUpdate(o.ID, uint32(o.N))
